@@ -11,7 +11,8 @@
 //@ decides: C13: after n additions the stream holds exactly n values, each once; the size limit error appears exactly when the cumulative size reaches STREAM_MAX_SIZE
 //@ outside: compactify / generation renumbering written back to the trace (needs TraceHandler with rich states); RecursiveStreamCursor over ValueAggregate iterables
 //@ harness: name=c01_stream_generation_bounded props=C01 panicfree=1 cap=900 cost=60 sym="generation: any u32 outside 4..1023; source previous/current: any" bound="one addition into a stream holding one value"
-//@ harness: name=c12_stream_iteration_order props=C12,C13 cap=1800 cost=300 sym="tags of 4 values: any u8; insertion order: one of 4 scrambled orders chosen symbolically" bound="previous generations {0,2}, current {1}, one new value"
+//@ harness: name=c12_stream_iteration_order props=C12,C13 cap=1800 cost=300 sym="tags of 5 values: any u8; four scrambled (concrete) insertion orders" bound="previous generations {0,2}, current {1}, one new value"
+//@ harness: name=c13_cursor_sees_values_added_later props=C13,C09,C12 cap=1800 cost=200 sym="generation (0..=2) of one previous-data and one current-data value (sparse matrices); the later value: source previous/current/new and a later generation (<= 3)" bound="3 values; generations <= 3"
 //@ harness: name=c13_stream_size_limit_exact props=C13 cap=900 cost=60 sym="sizes of the three sources: any usize with sum < 2^20" bound="sizes set directly in the matrices (no 1024 insertions)"
 //@ harness: name=c13_generation_from_data props=C13,C12 cap=300 cost=10 sym="generation: any u32; source: previous/current" bound="none"
 
@@ -66,10 +67,7 @@ fn c01_stream_generation_bounded() {
     std::mem::forget(s);
 }
 
-#[kani::proof]
-#[kani::unwind(7)]
-#[kani::stub(alloc::fmt::format, fmt_stub)]
-fn c12_stream_iteration_order() {
+fn order_body(perm: [usize; 5]) {
     let tags: [u8; 5] = kani::any();
     let vals = [
         (P { trace_pos: 10, tag: tags[0] }, Generation::Previous(gen(0))),
@@ -78,15 +76,6 @@ fn c12_stream_iteration_order() {
         (P { trace_pos: 13, tag: tags[3] }, Generation::New),
         (P { trace_pos: 14, tag: tags[4] }, Generation::Previous(gen(0))),
     ];
-    // value 4 goes to the same generation as value 0 and is always added after it
-    let order: u8 = kani::any();
-    kani::assume(order < 4);
-    let perm: [usize; 5] = match order {
-        0 => [0, 1, 2, 3, 4],
-        1 => [3, 2, 1, 0, 4],
-        2 => [2, 0, 4, 3, 1],
-        _ => [1, 3, 0, 4, 2],
-    };
     let mut s = Stream::<P>::new();
     let mut i = 0;
     while i < 5 {
@@ -96,21 +85,80 @@ fn c12_stream_iteration_order() {
         std::mem::forget(r);
         i += 1;
     }
-    let got = {
+    {
         let mut it = s.iter();
         let got = [it.next().copied(), it.next().copied(), it.next().copied(), it.next().copied(), it.next().copied()];
         kani::assert(it.next().is_none(), "C13: exactly the five added values, nothing duplicated");
-        got
-    };
-    kani::assert(got[0] == Some(vals[0].0), "C12: previous generation 0, first inserted");
-    kani::assert(got[1] == Some(vals[4].0), "C12: previous generation 0, second inserted");
-    kani::assert(got[2] == Some(vals[1].0), "C12: previous generation 2 after previous generation 0");
-    kani::assert(got[3] == Some(vals[2].0), "C12: current data after previous data");
-    kani::assert(got[4] == Some(vals[3].0), "C12: new values last");
+        kani::assert(got[0] == Some(vals[0].0), "C12: previous generation 0, first inserted");
+        kani::assert(got[1] == Some(vals[4].0), "C12: previous generation 0, second inserted");
+        kani::assert(got[2] == Some(vals[1].0), "C12: previous generation 2 after previous generation 0");
+        kani::assert(got[3] == Some(vals[2].0), "C12: current data after previous data");
+        kani::assert(got[4] == Some(vals[3].0), "C12: new values last");
+    }
     let c = s.cursor();
     kani::assert(s.slice_iter(c).next().is_none(), "C13: nothing after the cursor of the whole stream");
     kani::assert(s.slice_iter(StreamCursor::empty()).count() == 4, "C12: four non-empty generations seen from the empty cursor");
-    kani::cover!(order == 3, "scrambled order 3");
+    std::mem::forget(s);
+}
+
+/// value 4 goes to the same generation as value 0 and is always added after it; otherwise the values are
+/// added in four different (concrete) orders, with symbolic tags
+#[kani::proof]
+#[kani::unwind(8)]
+#[kani::stub(alloc::fmt::format, fmt_stub)]
+fn c12_stream_iteration_order() {
+    order_body([0, 1, 2, 3, 4]);
+    order_body([3, 2, 1, 0, 4]);
+    order_body([2, 0, 4, 3, 1]);
+    order_body([1, 3, 0, 4, 2]);
+    kani::cover!(true, "end reached");
+}
+
+/// A cursor taken from a stream denotes "everything seen so far": nothing is after it, and every value
+/// added later is handed out after it exactly once - also when the value matrices are sparse (the
+/// current-data matrix is: generations whose values also exist in previous data stay empty).  This is the
+/// recursive-stream fold's progress invariant (found violated on the pinned tree: finding F10).
+#[kani::proof]
+#[kani::unwind(7)]
+#[kani::stub(alloc::fmt::format, fmt_stub)]
+fn c13_cursor_sees_values_added_later() {
+    let (gp, gc): (u32, u32) = (kani::any(), kani::any());
+    kani::assume(gp <= 2 && gc <= 2);
+    let mut s = Stream::<P>::new();
+    let r1 = s.add_value(P { trace_pos: 1, tag: 1 }, Generation::Previous(gen(gp)));
+    let r2 = s.add_value(P { trace_pos: 2, tag: 2 }, Generation::Current(gen(gc)));
+    kani::assert(r1.is_ok() && r2.is_ok(), "C13: additions succeed");
+    let cursor = s.cursor();
+    kani::assert(s.slice_iter(cursor).next().is_none(), "C13: nothing is after a fresh cursor");
+    // a later value: a later generation of previous / current data, or a new value
+    let which: u8 = kani::any();
+    let g: u32 = kani::any();
+    kani::assume(which < 3 && g <= 3);
+    let generation = match which {
+        0 => {
+            kani::assume(g > gp);
+            Generation::Previous(gen(g))
+        }
+        1 => {
+            kani::assume(g > gc);
+            Generation::Current(gen(g))
+        }
+        _ => Generation::New,
+    };
+    let w = P { trace_pos: 3, tag: 3 };
+    let r3 = s.add_value(w, generation);
+    kani::assert(r3.is_ok(), "C13: addition succeeds");
+    {
+        let mut later = s.slice_iter(cursor);
+        let first = later.next();
+        kani::assert(matches!(first, Some(slice) if slice.len() == 1 && slice[0] == w), "C13/C09: a value added after the cursor was taken is handed out after it");
+        kani::assert(later.next().is_none(), "C13: and nothing else");
+    }
+    let c2 = s.cursor();
+    kani::assert(s.slice_iter(c2).next().is_none(), "C13: the next cursor is past it again");
+    kani::cover!(which == 1 && gc == 2 && g == 3, "sparse current-data matrix, later generation");
+    kani::cover!(which == 2, "new value");
+    std::mem::forget((r1, r2, r3));
     std::mem::forget(s);
 }
 
